@@ -190,7 +190,14 @@ class Env:
                     return None if x == NONE_V else (x + off if x >= 0 else x)
                 kw = dict(min_row=b(op["minr"], p.row_off), max_row=b(op["maxr"], p.row_off),
                           min_col=b(op["minc"], p.col_off), max_col=b(op["maxc"], p.col_off))
-                it = tb.iter_rows(**kw) if k == "iterrows" else tb.iter_cols(**kw)
+                # every second probe passes the bounds positionally, in the documented order of each method
+                # (iter_rows: rows first; iter_cols: columns first)
+                self._iter_n = getattr(self, "_iter_n", 0) + 1
+                if self._iter_n % 2 == 0:
+                    it = (tb.iter_rows(kw["min_row"], kw["max_row"], kw["min_col"], kw["max_col"]) if k == "iterrows"
+                          else tb.iter_cols(kw["min_col"], kw["max_col"], kw["min_row"], kw["max_row"]))
+                else:
+                    it = tb.iter_rows(**kw) if k == "iterrows" else tb.iter_cols(**kw)
                 try:
                     res = [[p.tok(c.value) for c in line] for line in it]     # consumed fully
                 except IndexError:
